@@ -111,6 +111,8 @@ pub fn generate(world: &World, seed: u64, run: u64) -> Trace {
             Shape::Arr3 => 3,
             Shape::Pair => 2,
             Shape::None => 0,
+            Shape::Rec => 1 + rng.below(2) as usize,
+            Shape::Sum => rng.below(3) as usize,
             Shape::Vec => rng.below(5) as usize,
             Shape::Append => rng.below(7) as usize,
         };
